@@ -92,6 +92,9 @@ theorem fixupName_pre_twice_ne (inst name : List Char) (hi : passThrough inst = 
 
 /-! ## substitute -/
 
+section Subst
+variable [CharFold]
+
 theorem substGo_drop (t : FixTable) (d : List Char) :
     ∀ (n : Nat) (cs : List Char), substGo t d n cs = substGo t d 0 (cs.drop n)
   | 0, cs => by simp
@@ -133,7 +136,7 @@ theorem substitute_no_dollar (t : FixTable) (d text : List Char) (h : '$' ∉ te
 
 /-- `matchesCI` characterised: the key is the lower-cased prefix of the text. -/
 theorem matchesCI_iff : ∀ (k rest : List Char),
-    matchesCI k rest = true ↔ k.length ≤ rest.length ∧ k = (rest.take k.length).map lowerAscii
+    matchesCI k rest = true ↔ k.length ≤ rest.length ∧ k = (rest.take k.length).map CharFold.lw
   | [], rest => by simp [matchesCI]
   | a :: k, [] => by simp [matchesCI]
   | a :: k, b :: rest => by
@@ -194,6 +197,7 @@ theorem firstMatch_longest {ks : List (List Char)} {rest k : List Char}
       · exact absurd hm hna
       · exact ih hs.2 h k' hk' hm
 
+omit [CharFold] in
 theorem mem_insKey (k x : List Char) : ∀ l : List (List Char), x ∈ insKey k l ↔ x = k ∨ x ∈ l
   | [] => by simp [insKey]
   | e :: l => by
@@ -205,6 +209,7 @@ theorem mem_insKey (k x : List Char) : ∀ l : List (List Char), x ∈ insKey k 
       · rintro (h | h | h) <;> simp [h]
       · rintro (h | h | h) <;> simp [h]
 
+omit [CharFold] in
 theorem pairwise_insKey (k : List Char) : ∀ l : List (List Char),
     l.Pairwise (fun a b => b.length ≤ a.length) → (insKey k l).Pairwise (fun a b => b.length ≤ a.length)
   | [], _ => by simp [insKey]
@@ -225,23 +230,28 @@ theorem pairwise_insKey (k : List Char) : ∀ l : List (List Char),
       · omega
       · exact h.1 x hx
 
+omit [CharFold] in
 theorem mem_sortByLen (x : List Char) : ∀ l : List (List Char), x ∈ sortByLen l ↔ x ∈ l
   | [] => by simp [sortByLen]
   | k :: rest => by simp [sortByLen, mem_insKey, mem_sortByLen x rest]
 
+omit [CharFold] in
 theorem pairwise_sortByLen : ∀ l : List (List Char),
     (sortByLen l).Pairwise (fun a b => b.length ≤ a.length)
   | [] => by simp [sortByLen]
   | k :: rest => pairwise_insKey k _ (pairwise_sortByLen rest)
 
+omit [CharFold] in
 theorem sortKeys_pairwise (t : FixTable) :
     (sortKeys t).Pairwise (fun a b => b.length ≤ a.length) := pairwise_sortByLen _
 
+omit [CharFold] in
 theorem mem_sortKeys (t : FixTable) (k : List Char) : k ∈ sortKeys t ↔ k ∈ t.map (·.1) :=
   mem_sortByLen k _
 
 /-! ### the result does not depend on the order of the table -/
 
+omit [CharFold] in
 theorem lookupFix_some_iff : ∀ (t : FixTable) (k v : List Char), (t.map (·.1)).Nodup →
     (lookupFix t k = some v ↔ (k, v) ∈ t)
   | [], k, v, _ => by simp [lookupFix]
@@ -267,6 +277,7 @@ theorem lookupFix_some_iff : ∀ (t : FixTable) (k v : List Char), (t.map (·.1)
         · exact absurd e.symm h
         · exact e
 
+omit [CharFold] in
 theorem lookupFix_none_iff : ∀ (t : FixTable) (k : List Char),
     (lookupFix t k = none ↔ k ∉ t.map (·.1))
   | [], k => by simp [lookupFix]
@@ -282,6 +293,7 @@ theorem lookupFix_none_iff : ∀ (t : FixTable) (k : List Char),
       · intro e; exact ⟨fun e' => h e'.symm, e⟩
       · intro e; exact e.2
 
+omit [CharFold] in
 theorem lookupFix_perm {t₁ t₂ : FixTable} (hp : t₁.Perm t₂) (hnd : (t₁.map (·.1)).Nodup)
     (k : List Char) : lookupFix t₁ k = lookupFix t₂ k := by
   have hnd2 : (t₂.map (·.1)).Nodup := (hp.map _).nodup_iff.mp hnd
@@ -341,6 +353,8 @@ theorem substGo_perm {t₁ t₂ : FixTable} (hp : t₁.Perm t₂) (hnd : (t₁.m
       · rw [substGo_perm hp hnd d cs]
       · rw [substGo_perm hp hnd d cs]
     · rw [substGo_perm hp hnd d cs]
+
+end Subst
 
 /-! ## collapse_all -/
 
